@@ -18,7 +18,6 @@ type scope struct {
 	pfx   string
 	tag   string
 	ports map[int]bool
-	proto map[int]string    // server-chosen ports: the protocol the case got the port for
 	rids  map[string]string // run id -> actor id
 
 	expTCP, expUDP map[int]bool // ports the model of the last expected() call says are in use
